@@ -1023,27 +1023,41 @@ Proof. exact ProofsPlan3Fetch.fetch_one_spec. Qed.
 Print Assumptions plan_tree_fetch_one.
 
 (* 6c. the induction over plan trees, one level each: [PS_at k] = every statically accepted plan tree of depth <= k,
-   run at an entity of its type, agrees with the monolith on that entity; [FL_at k] = the same for one field
-   (object or list valued, ANY field value -- null, a non-list under a list type, errors) *)
+   run at an entity of its type, agrees with the monolith on that entity (and the source's answer carries the runtime
+   type under __typename when asked for it); [FL_at k] = the same for one field whose objects have the object type of
+   the plan tree below (object or list valued, ANY field value -- null, a non-list under a list type, errors);
+   [FA_at k] = the same for one field resolved per RUNTIME type (interface / union positions).
+   [ab]: positions resolved per runtime type allowed by the validator *)
 Theorem plan_tree_field_step :
   forall (U : universe) (sc : schema) (subs : list schema) (vdsM : list vardef)
          (supM : list (bytes * json)) (f2 kq : nat) (tn : bool) (decls : list (name * list name))
-         (rdecls : list rdecl) (k : nat),
-  PS_at U sc subs vdsM supM f2 kq tn decls rdecls k ->
-  FL_at U sc subs vdsM supM f2 kq tn decls rdecls (S k).
+         (rdecls : list rdecl) (ab : bool) (k : nat),
+  PS_at U sc subs vdsM supM f2 kq tn decls rdecls ab k ->
+  FL_at U sc subs vdsM supM f2 kq tn decls rdecls ab (S k).
 Proof. exact ProofsPlan3Field.FL_step. Qed.
 Print Assumptions plan_tree_field_step.
+
+Theorem plan_tree_abstract_field_step :
+  forall (U : universe) (sc : schema) (subs : list schema) (vdsM : list vardef)
+         (supM : list (bytes * json)) (f2 kq : nat) (tn : bool) (decls : list (name * list name))
+         (rdecls : list rdecl) (ab : bool) (k : nat),
+  (ab = true -> types_ok_b sc U = true) ->
+  PS_at U sc subs vdsM supM f2 kq tn decls rdecls ab k ->
+  FA_at U sc subs vdsM supM f2 kq tn decls rdecls ab (S k).
+Proof. exact ProofsPlan3Field.FA_step. Qed.
+Print Assumptions plan_tree_abstract_field_step.
 
 Theorem plan_tree_position_step :
   forall (U : universe) (sc : schema) (subs : list schema) (vdsM : list vardef)
          (supM : list (bytes * json)) (eQ : entity) (f2 kq : nat) (tn : bool)
-         (decls : list (name * list name)) (rdecls : list rdecl) (k : nat),
+         (decls : list (name * list name)) (rdecls : list rdecl) (ab : bool) (k : nat),
   find_entity U (s_query sc) [] = Some eQ ->
   forallb (fun vd : vardef => not_repr (vd_name vd)) vdsM = true ->
   forallb (config_wf_b sc) subs = true ->
   univ3_contract_b sc subs decls rdecls U = true ->
-  FL_at U sc subs vdsM supM f2 kq tn decls rdecls k ->
-  PS_at U sc subs vdsM supM f2 kq tn decls rdecls (S k).
+  FL_at U sc subs vdsM supM f2 kq tn decls rdecls ab k ->
+  FA_at U sc subs vdsM supM f2 kq tn decls rdecls ab k ->
+  PS_at U sc subs vdsM supM f2 kq tn decls rdecls ab (S k).
 Proof. exact ProofsPlan3Step.PS_step. Qed.
 Print Assumptions plan_tree_position_step.
 
@@ -1080,3 +1094,37 @@ Theorem plan_tree_valid_all_universes_execute :
            (sres_of_response (execute F sc U Mono (client_doc3 vdsM [] ds) None (JObj supM))).
 Proof. exact ProofsPlan3Main.tv3_sound_execute. Qed.
 Print Assumptions plan_tree_valid_all_universes_execute.
+
+(* 6e. THE THEOREM OF THE TREE VALIDATOR WITH POSITIONS RESOLVED PER RUNTIME TYPE ([PAbs]: interface / union positions, or
+   selections with inline fragments; one plan tree per concrete object type, over the client's and the source's selections
+   flattened at that type; the gateway model reads the runtime type off the __typename member of the source's object):
+   tv4_static_b accepts  ->  for EVERY universe of the contract univ4_contract_b (= univ3_contract_b and: every entity has a
+   declared object type) and every fuel >= ds_need, gateway model == monolith (same data, errors iff).  No no_oof hypothesis. *)
+Theorem plan_tree_abstract_valid_all_universes :
+  forall (sc : schema) (subs : list schema) (vdsM : list vardef) (supM : list (bytes * json))
+         (kq : nat) (decls : list (name * list name)) (rdecls : list rdecl) (tn : bool)
+         (k : nat) (ds : list rfield3),
+  tv4_static_b sc subs [] vdsM supM kq decls rdecls k ds = true ->
+  forall (U : universe) (eQ : entity),
+  univ4_contract_b sc subs decls rdecls U = true ->
+  find_entity U (s_query sc) [] = Some eQ ->
+  forall F : nat,
+  (ds_need sc ds <= F)%nat ->
+  sres_weq (gateway3 U sc subs [] vdsM supM eQ F F tn k ds) (mono_client3 U sc [] vdsM supM eQ F ds).
+Proof. exact ProofsPlan3Main.tv4_sound. Qed.
+Print Assumptions plan_tree_abstract_valid_all_universes.
+
+Theorem plan_tree_abstract_valid_all_universes_execute :
+  forall (sc : schema) (subs : list schema) (vdsM : list vardef) (supM : list (bytes * json))
+         (kq : nat) (decls : list (name * list name)) (rdecls : list rdecl) (tn : bool)
+         (k : nat) (ds : list rfield3),
+  tv4_static_b sc subs [] vdsM supM kq decls rdecls k ds = true ->
+  forall (U : universe) (eQ : entity),
+  univ4_contract_b sc subs decls rdecls U = true ->
+  find_entity U (s_query sc) [] = Some eQ ->
+  forall F : nat,
+  (ds_need sc ds <= F)%nat ->
+  sres_weq (gateway3 U sc subs [] vdsM supM eQ F F tn k ds)
+           (sres_of_response (execute F sc U Mono (client_doc3 vdsM [] ds) None (JObj supM))).
+Proof. exact ProofsPlan3Main.tv4_sound_execute. Qed.
+Print Assumptions plan_tree_abstract_valid_all_universes_execute.
